@@ -2,6 +2,7 @@ package queryb
 
 import (
 	"fmt"
+	"math/rand"
 	"strings"
 	"testing"
 
@@ -112,52 +113,114 @@ func sortInts(a []int) {
 	}
 }
 
+// writePQL renders the single-call writes shared by the C15 and C16 alphabets.
+func writePQL(p *Profile, st behav.Step) string {
+	switch st.Str("op") {
+	case "Set":
+		return fmt.Sprintf("Set(%d, %s=%d)", p.Col(st.Int("c")), st.Str("f"), p.Row(st.Str("f"), st.Int("r")))
+	case "SetT":
+		if ts := st.Int("ts"); ts != 0 {
+			return fmt.Sprintf("Set(%d, t=%d, %s)", p.Col(st.Int("c")), p.Row("t", st.Int("r")), p.Time(ts))
+		}
+		return fmt.Sprintf("Set(%d, t=%d)", p.Col(st.Int("c")), p.Row("t", st.Int("r")))
+	case "SetV":
+		return fmt.Sprintf("Set(%d, v=%d)", p.Col(st.Int("c")), p.Val(st.Int("x")))
+	case "Clear":
+		return fmt.Sprintf("Clear(%d, %s=%d)", p.Col(st.Int("c")), st.Str("f"), p.Row(st.Str("f"), st.Int("r")))
+	case "ClearRow":
+		return fmt.Sprintf("ClearRow(%s=%d)", st.Str("f"), p.Row(st.Str("f"), st.Int("r")))
+	}
+	return ""
+}
+
+// importStep realises the spec's Import(fld, r, S) action.
+func importStep(s *Sess, st behav.Step) error {
+	var bits []Bit
+	for _, a := range st.Ints("S") {
+		bits = append(bits, Bit{Row: s.P.Row(st.Str("f"), st.Int("r")), Col: s.P.Col(a)})
+	}
+	return s.ImportIDs(st.Str("f"), bits, false)
+}
+
 // runC15 replays one C15 behaviour.
 func runC15(nd *Node, c *Case, res *behav.Result) *mismatch {
 	p := c.Prof
-	s, err := NewSess(nd, p, c15Fields, false, c.Seed+int64(c.Idx))
+	s, err := NewSess(nd, c.Index, p, c15Fields, false, c.Seed+int64(c.Idx))
 	if err != nil {
-		return &mismatch{Step: 0, Op: "setup", Kind: "setup", Symptom: "error", Text: err.Error()}
+		res.Cover("setup_failed")
+		res.SetInconclusive("could not create index/fields: " + err.Error())
+		return nil
 	}
 	defer s.Close()
+	all := append([]behav.Behaviour{c.Beh}, c.More...)
+	for k, beh := range all {
+		if mm := runC15Beh(s, c, beh, k > 0, res); mm != nil {
+			c.Beh, c.More = beh, nil
+			return mm
+		}
+	}
+	return nil
+}
+
+// c15GroupKey groups read-only behaviours (stack steps only) by their initial dataset.
+func c15GroupKey(b behav.Behaviour) string {
+	if len(b) == 0 || b[0].Str("op") != "init" {
+		return ""
+	}
+	for _, st := range b[1:] {
+		switch st.Str("op") {
+		case "push", "apply", "drop", "end", "not_err":
+		default:
+			return ""
+		}
+	}
+	return behav.JSON(b[0])
+}
+
+func runC15Beh(s *Sess, c *Case, beh behav.Behaviour, skipInit bool, res *behav.Result) *mismatch {
+	p := c.Prof
 	tainted := false
-	for i, st := range c.Beh {
+	// the node receiving each request is a function of the behaviour alone (replayable)
+	s.rng = rand.New(rand.NewSource(int64(behav.Hash64(behav.JSON(beh))>>1) + c.Seed))
+	for i, st := range beh {
 		op := st.Str("op")
 		mk := func(kind, sym, text string) *mismatch {
-			if (st.Bool("xs") || st.Bool("sxs") || tainted) && p.EdgeIsShard && sym != "panic" {
+			// known finding: the executor evaluates Shift per shard, so a bit carried over a
+			// shard edge is invisible to an enclosing operator / Not, and Store misplaces it
+			if (st.Bool("xn") || tainted) && p.EdgeIsShard && sym != "panic" {
 				sym = "shift_shard_carry"
 			}
 			return &mismatch{Step: i, Op: op, Kind: kind, Symptom: sym, Text: text + " | profile " + p.Name + " | requests: " + lastLog(s.Log, 14)}
 		}
 		res.Cover("c15:op:" + op)
-		var wpql string
+		wpql := writePQL(p, st)
 		switch op {
-		case "Set":
-			wpql = fmt.Sprintf("Set(%d, %s=%d)", p.Col(st.Int("c")), st.Str("f"), p.Row(st.Str("f"), st.Int("r")))
-		case "SetT":
-			if ts := st.Int("ts"); ts != 0 {
-				wpql = fmt.Sprintf("Set(%d, t=%d, %s)", p.Col(st.Int("c")), p.Row("t", st.Int("r")), p.Time(ts))
-			} else {
-				wpql = fmt.Sprintf("Set(%d, t=%d)", p.Col(st.Int("c")), p.Row("t", st.Int("r")))
-			}
-		case "SetV":
-			wpql = fmt.Sprintf("Set(%d, v=%d)", p.Col(st.Int("c")), p.Val(st.Int("x")))
-		case "Clear":
-			wpql = fmt.Sprintf("Clear(%d, %s=%d)", p.Col(st.Int("c")), st.Str("f"), p.Row(st.Str("f"), st.Int("r")))
-		case "ClearRow":
-			wpql = fmt.Sprintf("ClearRow(%s=%d)", st.Str("f"), p.Row(st.Str("f"), st.Int("r")))
 		case "Store":
 			src, _ := Render(p, decodeProg(st["sq"]), nil)
 			wpql = fmt.Sprintf("Store(%s, %s=%d)", src, st.Str("f"), p.Row(st.Str("f"), st.Int("r")))
 			if st.Bool("sxs") && p.EdgeIsShard {
 				tainted = true
 			}
-		case "Import":
-			var bits []Bit
-			for _, a := range st.Ints("S") {
-				bits = append(bits, Bit{Row: p.Row(st.Str("f"), st.Int("r")), Col: p.Col(a)})
+		case "init":
+			if skipInit {
+				continue
 			}
-			if err := s.ImportIDs(st.Str("f"), bits, false); err != nil {
+			for _, x := range []struct {
+				key, fld string
+				r        int
+			}{{"f1", "f", 1}, {"g1", "g", 1}, {"f2", "f", 2}} {
+				var bits []Bit
+				for _, a := range st.Ints(x.key) {
+					bits = append(bits, Bit{Row: p.Row(x.fld, x.r), Col: p.Col(a)})
+				}
+				if len(bits) > 0 {
+					if err := s.ImportIDs(x.fld, bits, false); err != nil {
+						return mk("Import", "error", err.Error())
+					}
+				}
+			}
+		case "Import":
+			if err := importStep(s, st); err != nil {
 				return mk("Import", "error", err.Error())
 			}
 		case "not_err":
@@ -224,4 +287,4 @@ func runC15(nd *Node, c *Case, res *behav.Result) *mismatch {
 	return nil
 }
 
-func TestC15(t *testing.T) { Drive(t, "C15", runC15, nil) }
+func TestC15(t *testing.T) { Drive(t, "C15", runC15, nil, c15GroupKey) }
